@@ -38,7 +38,12 @@ func (fr *Frame) doCall(site ssa.Instruction, c *ssa.CallCommon) *Val {
 			return fr.applyFieldContract(ct, key, c.Signature(), args)
 		}
 	}
-	// call through a function value of unknown identity
+	// call through a function value of unknown identity: a closure may have
+	// captured anything, so everything is havocked
+	fr.vc.abstracted("call through an unknown function value: all heaps havocked")
+	for _, h := range sortedKeys(fr.vc.heapSort) {
+		fr.vc.heapHavoc(fr.st, h)
+	}
 	return fr.unknownCall("func value "+c.Value.Name(), c.Signature().Results(), args, true)
 }
 
@@ -46,6 +51,13 @@ func (fr *Frame) doCall(site ssa.Instruction, c *ssa.CallCommon) *Val {
 func (e *Engine) funcFieldKey(v ssa.Value) string {
 	u, ok := v.(*ssa.UnOp)
 	if !ok {
+		return ""
+	}
+	// element of a slice of funcs that was loaded from a struct field
+	if ia, ok := u.X.(*ssa.IndexAddr); ok {
+		if k := e.funcFieldKey(ia.X); k != "" {
+			return k
+		}
 		return ""
 	}
 	fa, ok := u.X.(*ssa.FieldAddr)
@@ -89,7 +101,7 @@ func (fr *Frame) applyFieldContract(c *Contract, key string, sig *types.Signatur
 	}
 	bindResults(rn, rv, sig.Results())
 	for _, en := range c.Ensures {
-		t, err := fr.evalClause(en, &evalCtx{fr: fr, st: fr.st, old: pre, names: rn, callee: key})
+		t, err := fr.evalClause(en, &evalCtx{fr: fr, st: fr.st, old: pre, names: rn, callee: key, assuming: true})
 		if err != nil {
 			fr.stale(name+"/ensures", err)
 			continue
@@ -359,7 +371,7 @@ func (fr *Frame) applyContract(c *Contract, fn *ssa.Function, key string, args [
 	}
 	bindResults(rnames, rv, res)
 	for _, en := range c.Ensures {
-		t, err := fr.evalClause(en, &evalCtx{fr: fr, st: fr.st, old: pre, names: rnames, callee: key})
+		t, err := fr.evalClause(en, &evalCtx{fr: fr, st: fr.st, old: pre, names: rnames, callee: key, assuming: true})
 		if err != nil {
 			fr.stale(name+"/ensures", err)
 			continue
